@@ -22,7 +22,8 @@ EXPLANATION = (
     'ensure_double wraps every measurement array, the distance is self_i + self_j - 2 cross, labels and values use one '
     'get_unique_inverse result. The compiled .so cannot be rebuilt here (Cython is not installed), so defects in the .pyx '
     'are recorded as known findings. Numeric agreement with calc_rdm is NOT decided.'
-    ' Also: (MASK-WEIGHT) self similarities are indexed per pair, not spread by dense indicator products (NaN of one condition stays with its pairs); the distance formula is recognised in product and in indexed form.')
+    ' Also: (MASK-WEIGHT) self similarities are indexed per pair, not spread by dense indicator products (NaN of one condition stays with its pairs); the distance formula is recognised in product and in indexed form.'
+    ' Round 6: (STALE-DEFAULT) the crossval flag and the fold codes are computed from the same version of cv_descriptor; (FWD) noise and priors reach the compiled kernels as the caller passed them; (OR-FALSY) table look-ups are not overridden by `or`.')
 ASSUMPTIONS = ['the lowering in sa/pyx.py preserves the statement structure of the .pyx (fails closed outside its subset)',
                'the shipped .so was built from this .pyx']
 FLOOR = 45
